@@ -10,10 +10,13 @@
 pub mod gen_tx;
 pub mod mon;
 pub mod prog;
+pub mod recstore;
 pub mod refmodel;
 pub mod rng;
+pub mod scenario;
 pub mod stepbus;
 pub mod vmutil;
+pub mod world;
 
 use serde_json::{
     Value,
